@@ -202,7 +202,10 @@ def sig_of(v, row, m):
         a = m["attrs"][m["creators"][jj - 1]]
         cls = "%s:%s" % (a[0], a[1]) if a[0] == "Step" else a[0]
         alias = a[2]
-    return "%s|entry=%s|kind=%s|lang=%s|field=%s|line=%s|alias=%s" % (clause, m["entry"], m["kind"], m["lang"], field, cls, alias.strip())
+    entry = m["entry"] if m["kind"] in ("feature", "file", "fragment") else m["kind"]
+    if field in ("step_type", "name", "keyword", "shape", "language"):       # may depend on the keyword table: name language and alias
+        return "%s|entry=%s|lang=%s|field=%s|line=%s|alias=%s" % (clause, entry, m["lang"], field, cls, alias.strip())
+    return "%s|entry=%s|field=%s|line=%s" % (clause, entry, field, cls)
 
 
 def covering_docs(docs, n):
@@ -220,11 +223,14 @@ def run(chk):
     observe.quiet_logging()
     rnd = random.Random(chk.seed)
     quick = chk.quick()
-    cfg = "GherkinDoc_MC_quick.cfg" if quick else "GherkinDoc_MC_thorough.cfg"
-    r = chk.tlc("GherkinDoc_MC", cfg, timeout=840, workers=WORKERS, heap="8g")
-    for name in r.violated:
-        chk.violation("C04.design." + name, "design:%s" % name, "TLC: invariant %s violated in GherkinDoc_MC (%s)" % (name, cfg))
-    docs = [json.loads(t[1]) for t in r.by_tag("DOC")]
+    cfgs = ["GherkinDoc_MC_quick.cfg", "GherkinDoc_MC_quick_detail.cfg"] if quick else \
+           ["GherkinDoc_MC_thorough.cfg", "GherkinDoc_MC_thorough_detail.cfg"]
+    docs = []
+    for cfg in cfgs:
+        r = chk.tlc("GherkinDoc_MC", cfg, timeout=840, workers=WORKERS, heap="8g")
+        for name in r.violated:
+            chk.violation("C04.design." + name, "design:%s" % name, "TLC: invariant %s violated in GherkinDoc_MC (%s)" % (name, cfg))
+        docs += [json.loads(t[1]) for t in r.by_tag("DOC")]
     n_bfs = len(docs)
     rs = chk.tlc("GherkinDoc_MC", "GherkinDoc_MC_sim.cfg", timeout=600, workers=1, simulate=60 if quick else 600,
                  depth=22, env=SIM_ENV)
@@ -277,7 +283,7 @@ def run(chk):
     chk.impl_traces = len(rows)
     chk.evaluations = sum(len(row["elems"]) + len(row["tags"]) for row in rows)
     skipped = sum(len(res.by_tag("SKIP")) for mname, c, res in chk.tlc_runs if mname == "GherkinDoc_Trace")
-    chk.divergences = skipped
+    chk.divergences = len(verdicts)          # rows whose observed model differs from the reference (each is also a verdict)
     byid = {row["id"]: row for row in rows}
     vs_all = []
     for i, vs in verdicts.items():
